@@ -459,6 +459,25 @@ class Evaluator:
         m(fr, st)
 
     def st_Expr(self, fr, st):
+        c = st.value
+        # L.append(e) / L.extend([..]) on a local list: the list value is rebuilt (lists are values in the graph)
+        if isinstance(c, ast.Call) and isinstance(c.func, ast.Attribute) and isinstance(c.func.value, ast.Name) and \
+                c.func.attr in ("append", "extend") and len(c.args) == 1 and not c.keywords:
+            cur = fr.env.vars.get(c.func.value.id)
+            base = cur
+            while base is not None and base.op in ("append", "havoc", "loopout"):
+                base = base.args[0] if base.op == "append" else base.args[2]
+            if cur is not None and base is not None and base.op == "list":
+                v = self.eval(fr, c.args[0])
+                if c.func.attr == "append" and cur.op == "list" and not fr.loops:
+                    new = mk("list", *cur.args, v)
+                elif c.func.attr == "extend" and cur.op == "list" and v.op in ("list", "tuple") and not fr.loops:
+                    new = mk("list", *cur.args, *v.args)
+                else:
+                    new = mk("append", cur, v) if c.func.attr == "append" else mk("extend", cur, v)
+                fr.env.vars[c.func.value.id] = new
+                self.emit(fr, "assign", st.lineno, (c.func.value.id, new, True))
+                return
         v = self.eval(fr, st.value)
         self.emit(fr, "expr", st.lineno, v)
 
@@ -649,8 +668,18 @@ class Evaluator:
         """Elements of an iterable whose length is a small literal: range(2), range(1, 3), (a, b), [a, b].
         Such loops are copy-paste in disguise (`for spin in range(2)`): they are unrolled, not abstracted."""
         it0 = it
-        if it0.op in ("tuple", "list") and 0 < len(it0.args) <= self.MAX_UNROLL and all(isinstance(a, T) for a in it0.args):
-            return list(it0.args)
+        els = self.static_elements(it0)
+        if els is not None:
+            return els if 0 < len(els) <= self.MAX_UNROLL else None
+        if it0.op == "call" and func_name(it0) == "builtins.enumerate" and len(call_parts(it0)[1]) == 1 and \
+                not call_parts(it0)[2]:
+            inner = self.const_sequence(call_parts(it0)[1][0])
+            return None if inner is None else [mk("tuple", const(i), e) for i, e in enumerate(inner)]
+        if it0.op == "call" and func_name(it0) == "builtins.zip" and call_parts(it0)[1] and not call_parts(it0)[2]:
+            cols = [self.const_sequence(a) for a in call_parts(it0)[1]]
+            if all(c is not None for c in cols) and len({len(c) for c in cols}) == 1:
+                return [mk("tuple", *row) for row in zip(*cols)]
+            return None
         if it0.op == "call" and func_name(it0) == "builtins.range":
             _, pos, kws = call_parts(it0)
             if kws or not (1 <= len(pos) <= 2):
@@ -662,6 +691,33 @@ class Evaluator:
             lo, hi = (0, vals[0]) if len(vals) == 1 else (vals[0], vals[1])
             if 0 < hi - lo <= self.MAX_UNROLL:
                 return [const(i) for i in range(lo, hi)]
+        return None
+
+    def static_elements(self, t: T) -> Optional[List[T]]:
+        """Elements of a sequence whose length is fixed by the source: a tuple / list display, the per-iteration value
+        of a scan or vmap over such a display, a slice of one of those, tuple(<such>)."""
+        if t.op in ("tuple", "list") and all(isinstance(a, T) and a.op != "star" for a in t.args):
+            return list(t.args)
+        if t.op in ("scan_x", "vmap_elem") and isinstance(t.args[0], T):
+            inner = self.static_elements(t.args[0])
+            if inner is not None:
+                return [getitem(t, const(i)) for i in range(len(inner))]
+        if t.op == "getitem" and t.args[1].op == "slice":
+            inner = self.static_elements(t.args[0])
+            if inner is not None:
+                b = []
+                for x in t.args[1].args:
+                    if x.op == "const" and (x.args[0] is None or isinstance(x.args[0], int)):
+                        b.append(x.args[0])
+                    else:
+                        return None
+                return inner[slice(*b)]
+        if t.op == "call" and func_name(t) in ("builtins.tuple", "builtins.list") and len(call_parts(t)[1]) == 1:
+            return self.static_elements(call_parts(t)[1][0])
+        if t.op == "binop" and t.args[0] == "+":
+            l, r = self.static_elements(t.args[1]), self.static_elements(t.args[2])
+            if l is not None and r is not None:
+                return l + r
         return None
 
     def st_For(self, fr, st):
